@@ -883,6 +883,7 @@ func (x *Exec) enterLoop(li *loopInfo, edges []edgeState) *State {
 	}
 	if lm.reads && !lm.all {
 		x.c.havocTpos(st, x.c.region(st, "$tpos"))
+		x.c.havocRfault(st)
 	}
 	if lm.writes && !lm.all {
 		x.c.havocOpos(st)
